@@ -151,6 +151,9 @@ struct Client<'a> {
     open: BTreeMap<String, String>,
     last_touched: Option<String>,
     op_request_id: BTreeMap<usize, i64>,
+    /// LSP document versions: 1 at didOpen, +1 per didChange, forgotten at didClose (a
+    /// re-opened document starts at 1 again, as editors do)
+    doc_versions: BTreeMap<String, i64>,
 }
 
 impl<'a> Client<'a> {
@@ -233,6 +236,12 @@ impl<'a> Client<'a> {
         self.barrier()
     }
 
+    fn bump_version(&mut self, path: &str, open: bool) -> i64 {
+        let v = if open { 1 } else { self.doc_versions.get(path).copied().unwrap_or(0) + 1 };
+        self.doc_versions.insert(path.to_string(), v);
+        v
+    }
+
     fn position(&self, path: &str, offset: u32) -> Value {
         let text = self.open.get(path).cloned().unwrap_or_default();
         let (line, character) = RefMap::new(&text).position(offset as usize);
@@ -251,18 +260,20 @@ impl<'a> Client<'a> {
                 self.open.insert(path.clone(), text.clone());
                 self.sim.with(|st| st.editor_open.insert(PathBuf::from(path), text.clone()));
                 self.last_touched = Some(path.clone());
+                let version = self.bump_version(path, true);
                 self.notify(
                     "textDocument/didOpen",
-                    json!({"textDocument":{"uri":uri_of(path),"languageId":"tablegen","version":idx,"text":text}}),
+                    json!({"textDocument":{"uri":uri_of(path),"languageId":"tablegen","version":version,"text":text}}),
                 );
             }
             Op::Change { path, text } => {
                 self.open.insert(path.clone(), text.clone());
                 self.sim.with(|st| st.editor_open.insert(PathBuf::from(path), text.clone()));
                 self.last_touched = Some(path.clone());
+                let version = self.bump_version(path, false);
                 self.notify(
                     "textDocument/didChange",
-                    json!({"textDocument":{"uri":uri_of(path),"version":idx},"contentChanges":[{"text":text}]}),
+                    json!({"textDocument":{"uri":uri_of(path),"version":version},"contentChanges":[{"text":text}]}),
                 );
             }
             Op::Request { kind, path, offset } => {
@@ -296,6 +307,9 @@ impl<'a> Client<'a> {
                 self.notify("textDocument/didSave", json!({"textDocument":{"uri":uri_of(path)}}));
             }
             Op::Close { path } => {
+                self.doc_versions.remove(path);
+                self.open.remove(path);
+                self.sim.with(|st| st.editor_open.remove(&PathBuf::from(path)));
                 self.notify("textDocument/didClose", json!({"textDocument":{"uri":uri_of(path)}}));
             }
             Op::DiskWrite { path, text } => {
@@ -431,6 +445,7 @@ pub fn execute(scenario: &Scenario, sched: Sched) -> ExecResult {
                 open: BTreeMap::new(),
                 last_touched: None,
                 op_request_id: BTreeMap::new(),
+                doc_versions: BTreeMap::new(),
             };
             client.run();
             let _ = server.join();
